@@ -192,8 +192,11 @@ def generate(ctx, module, plan, workers=8):
     spec), exports the sampled cases of those marked for export; `witnesses`: the run must also establish the module's
     WitnessesReached (anti-vacuity; a failed ASSUME is a TLC error = machinery failure).  Returns the exported rows."""
     cases = []
-    for label, consts, invariants, export, witnesses in plan:
+    for entry in plan:
+        label, consts, invariants, export, witnesses = entry[:5]
         env = {"VF_WITNESSES": "1"} if witnesses else {}
+        if len(entry) > 5:                       # seeded random larger graphs replace the enumeration
+            env["VF_GRAPHS"] = write_graphs(ctx, entry[5])
         if export:
             got = table.generate(ctx, module, consts, invariants=invariants, label="%s %s" % (module, label),
                                  workers=workers, timeout=3000, env=env)
@@ -204,6 +207,40 @@ def generate(ctx, module, plan, workers=8):
             tlc.check(ctx, module, cfg_text=table.cfg(consts, invariants), label="%s MC %s" % (module, label),
                       workers=workers, timeout=3000, env=env)
     return cases
+
+
+def random_graphs(rng, count, lo, hi, maxpar=3, ghost_p=0.15):
+    """Seeded random graphs with lo..hi revisions and at most two heads: a random DAG (<= maxpar ordered parents, now
+    and then the ghost as a merged parent) restricted to the ancestry of one or two of its revisions, renumbered."""
+    out, seen, tries = [], set(), 0
+    while len(out) < count and tries < count * 200:
+        tries += 1
+        n0 = rng.randint(lo, hi + 4)
+        par = []
+        for i in range(1, n0 + 1):
+            k = min(rng.choice([0, 1, 1, 1, 2, 2, 2, 3][:5 + maxpar]), i - 1, maxpar)
+            ps = rng.sample(range(1, i), k)
+            if ps and len(ps) < maxpar and rng.random() < ghost_p:
+                ps.append(GHOST)
+            par.append(ps)
+        tips = {n0} | ({rng.randint(1, n0)} if rng.random() < 0.6 else set())
+        keep = sorted(set().union(*(ancestry(par, t) for t in tips)))
+        if not lo <= len(keep) <= hi:
+            continue
+        ren = {r: i for i, r in enumerate(keep, 1)}
+        g = tuple(tuple(ren.get(p, GHOST) for p in par[r - 1]) for r in keep)
+        if g not in seen:
+            seen.add(g)
+            out.append([list(ps) for ps in g])
+    return out
+
+
+def write_graphs(ctx, graphs):
+    import json
+    path = os.path.join(ctx.workdir, "graphs_%d.json" % len(os.listdir(ctx.workdir)))
+    with open(path, "w") as f:
+        json.dump(graphs, f)
+    return path
 
 
 def group_by_graph(cases):
